@@ -146,6 +146,12 @@ def search_language(pattern):
     if len(items) == 1 and items[0][0] is sre_c.BRANCH:
         return z3.Union(*[_alt(a) for a in items[0][1][1]]) \
             if len(items[0][1][1]) > 1 else _alt(items[0][1][1][0])
+    # sre factors a common leading ^ out of the alternatives:
+    # ^a$|^b  ->  ^ (a$ | b): distribute it back
+    if len(items) == 2 and items[0][0] is sre_c.AT and \
+            items[1][0] is sre_c.BRANCH:
+        return z3.Union(*[_alt([items[0]] + list(a))
+                          for a in items[1][1][1]])
     return _alt(items)
 
 
